@@ -53,6 +53,9 @@ type scenario struct {
 	// Ops, when set, replaces the default mix of entry points for the rounds of this scenario
 	Ops   []string `json:"ops,omitempty"`
 	build func() (*graphql.Schema, error)
+	// buildGen, when set, makes the rounds of this scenario "hot reload" rounds: ONE plan cache shared by two schema values
+	// of the same shape (generation 1 and 2) whose resolvers answer with their generation tag
+	buildGen func(gen int) (*graphql.Schema, error)
 }
 
 var wideQueries = []string{
@@ -288,6 +291,109 @@ var singleMemberQueries = []query{
 	{Q: `{ top { ... on Dog { owner { only { name ... on Dog { owner { name } } } } } } }`},
 }
 
+// twoGenerations: the same schema shape built twice (a hot reload); every resolver answers with the generation tag of the
+// schema it belongs to. The custom scalar's ParseLiteral is slow, which widens the window between a cache lookup (miss) and
+// the store that follows validation + planning.
+func buildGeneration(gen int) (*graphql.Schema, error) {
+	tag := fmt.Sprintf("gen%d", gen)
+	slow := graphql.NewScalar(graphql.ScalarConfig{Name: "Slow",
+		Serialize:  func(v interface{}) interface{} { return v },
+		ParseValue: func(v interface{}) interface{} { return v },
+		ParseLiteral: func(v ast.Value) interface{} {
+			time.Sleep(300 * time.Microsecond)
+			runtime.Gosched()
+			if iv, ok := v.(*ast.IntValue); ok {
+				return iv.Value
+			}
+			return nil
+		}})
+	var box *graphql.Object
+	box = graphql.NewObject(graphql.ObjectConfig{Name: "Box", Fields: graphql.FieldsThunk(func() graphql.Fields {
+		return graphql.Fields{
+			"tag":   &graphql.Field{Type: graphql.String, Resolve: func(p graphql.ResolveParams) (interface{}, error) { return tag, nil }},
+			"inner": &graphql.Field{Type: box, Resolve: func(p graphql.ResolveParams) (interface{}, error) { return 1, nil }},
+		}
+	})})
+	q := graphql.NewObject(graphql.ObjectConfig{Name: "Q", Fields: graphql.Fields{
+		"tag": &graphql.Field{Type: graphql.String, Resolve: func(p graphql.ResolveParams) (interface{}, error) { return tag, nil }},
+		"say": &graphql.Field{Type: graphql.String, Args: graphql.FieldConfigArgument{"v": &graphql.ArgumentConfig{Type: slow}},
+			Resolve: func(p graphql.ResolveParams) (interface{}, error) {
+				return fmt.Sprintf("%s says %v", tag, p.Args["v"]), nil
+			}},
+		"box": &graphql.Field{Type: box, Resolve: func(p graphql.ResolveParams) (interface{}, error) { return 1, nil }},
+	}})
+	s, err := graphql.NewSchema(graphql.SchemaConfig{Query: q})
+	return &s, err
+}
+
+var twoGenQueries = []query{
+	{Q: `{ tag say(v: 3) s2: say(v: 4) box { tag inner { tag } } }`},
+	{Q: `{ say(v: 1) tag }`},
+	{Q: `{ tag box { tag } }`},
+}
+
+// runTwoGenRound: N goroutines, split over the two generations, Get + ExecutePlan through ONE cold cache; every response
+// must be the response of the goroutine's OWN schema generation; afterwards, sequentially, both generations once more.
+func runTwoGenRound(rs roundSpec, sc scenario) roundResult {
+	res := roundResult{Round: rs.Round, Scenario: sc.Name, N: rs.N}
+	var shared [2]*graphql.Schema
+	var want [2][]string
+	for g := 0; g < 2; g++ {
+		alone, err := sc.buildGen(g + 1)
+		if err != nil {
+			res.Fault = "schema does not build: " + err.Error()
+			return res
+		}
+		for _, q := range sc.Queries {
+			want[g] = append(want[g], cacheOne(graphql.NewPlanCache(graphql.PlanCacheOptions{Normalize: rs.Norm}), alone, q))
+		}
+		if shared[g], err = sc.buildGen(g + 1); err != nil {
+			res.Fault = "schema does not build: " + err.Error()
+			return res
+		}
+	}
+	cache := graphql.NewPlanCache(graphql.PlanCacheOptions{Normalize: rs.Norm})
+	start := make(chan struct{})
+	var wg sync.WaitGroup
+	var mmu sync.Mutex
+	check := func(g int, st step, gen int) {
+		got := ""
+		func() {
+			defer func() {
+				if r := recover(); r != nil {
+					got = fmt.Sprintf("PANIC: %v", r)
+				}
+			}()
+			got = cacheOne(cache, shared[gen], sc.Queries[st.Q])
+		}()
+		mmu.Lock()
+		res.Steps++
+		if got != want[gen][st.Q] {
+			res.Mismatches = append(res.Mismatches, mismatch{Goroutine: g, Step: step{Op: fmt.Sprintf("cacheGet on schema generation %d", gen+1), Q: st.Q}, Got: got, Want: want[gen][st.Q]})
+		}
+		mmu.Unlock()
+	}
+	for g := 0; g < rs.N; g++ {
+		wg.Add(1)
+		go func(g int) {
+			defer wg.Done()
+			<-start
+			for _, st := range rs.Scripts[g] {
+				check(g, st, g%2)
+			}
+		}(g)
+	}
+	close(start)
+	wg.Wait()
+	// whatever the overlapping misses left in the cache: both generations again, one after the other
+	for gen := 0; gen < 2; gen++ {
+		for qi := range sc.Queries {
+			check(-1, step{Q: qi}, gen)
+		}
+	}
+	return res
+}
+
 var slowPlanQueries = []query{
 	{Q: `{ pets { __typename ... on Dog { name say(v: 3) friend { ... on Cat { name say(v: 2) friend { ... on Dog { say(v: 1) } } } } } ... on Cat { name say(v: 5) pack { name ... on Bird { say(v: 4) } } } ... on Bird { name } } }`},
 	{Q: `{ named { name ... on Dog { say(v: 7) pack { ... on Cat { say(v: 1) } ... on Dog { name say(v: 6) } } } ... on Cat { say(v: 8) } } pet { ... on Dog { say(v: 2) friend { ... on Cat { say(v: 9) } } } } }`},
@@ -320,6 +426,9 @@ func scenarios(seed uint64, thorough bool) []scenario {
 	out = append(out, descScenario("wide+errors+thunks", wide, wq, true, true, true))
 	out = append(out, scenario{Name: "dirOnly", build: buildDirOnly, Queries: []query{
 		{Q: `{ a @cfg(o: {p: 1, r: K}, e: L) }`}, {Q: `{ a2: a @cfg(o: {p: "x", r: Z}, e: 3) a }`}, {Q: `{ a }`}}})
+	for k := 0; k < 2; k++ {
+		out = append(out, scenario{Name: "twoGenerations", buildGen: buildGeneration, Queries: twoGenQueries, Ops: []string{"cacheGet"}})
+	}
 	out = append(out, scenario{Name: "hiddenInputs", build: buildHiddenInputs, Queries: hiddenInputQueries})
 	out = append(out, scenario{Name: "hiddenInputs", build: buildHiddenInputs, Queries: hiddenInputQueries})
 	out = append(out, scenario{Name: "singleMember", build: buildSingleMember, Queries: singleMemberQueries,
@@ -477,6 +586,9 @@ type roundResult struct {
 
 func runRound(rs roundSpec, scs []scenario) roundResult {
 	sc := scs[rs.Scenario]
+	if sc.buildGen != nil {
+		return runTwoGenRound(rs, sc)
+	}
 	res := roundResult{Round: rs.Round, Scenario: sc.Name, N: rs.N}
 	// ---- sequential baseline on its own fresh schema
 	alone, err := sc.build()
